@@ -121,19 +121,20 @@ package capacity_policy
 // non-preemptible allocated + r <= deserved quota.
 //@ func (*CapacityPolicy).IsJobOverQueueCapacity
 //@   props C08 C10
-//@   requires cp != nil && job != nil && tasksOK(tasksToAllocate)
+//@   requires cp != nil && job != nil && tasksOK(tasksToAllocate) && sumsOf(tasksToAllocate)
 //@   requires utils.chainOK(cp.queues, job.Queue) && chainCacheOK(cp.queues, job.Queue)
 //@   modifies family(cp.queues[job.Queue].lastDeservedShare)
 //@   ensures result != nil
 //@   ensures result.IsSchedulable == (allWithinLimit(cp.queues, job.Queue, requestedShareQuantities) && (job.Preemptibility == v2alpha2.Preemptible || allWithinQuota(cp.queues, job.Queue, requestedShareQuantities)))
-//@   ensures [requestedIsQuota] requestedShareQuantities["CPU"] == requiredQuota.MilliCPU && requestedShareQuantities["Memory"] == requiredQuota.Memory && requestedShareQuantities["GPU"] == requiredQuota.GPU
+//@   ensures [requestedIsSum] requestedShareQuantities["CPU"] == reqCpu(len(tasksToAllocate)) && requestedShareQuantities["Memory"] == reqMem(len(tasksToAllocate)) && requestedShareQuantities["GPU"] == requiredQuota.GPU
 //@ end
 
 //@ func (*CapacityPolicy).IsNonPreemptibleJobOverQuota
 //@   props C08 C10
-//@   requires cp != nil && job != nil && tasksOK(tasksToAllocate)
+//@   requires cp != nil && job != nil && tasksOK(tasksToAllocate) && sumsOf(tasksToAllocate)
 //@   requires utils.chainOK(cp.queues, job.Queue) && chainCacheOK(cp.queues, job.Queue)
 //@   modifies family(cp.queues[job.Queue].lastDeservedShare)
 //@   ensures result != nil
 //@   ensures result.IsSchedulable == (job.Preemptibility == v2alpha2.Preemptible || allWithinQuota(cp.queues, job.Queue, requestedShareQuantities))
+//@   ensures [requestedIsSum] requestedShareQuantities["CPU"] == reqCpu(len(tasksToAllocate)) && requestedShareQuantities["Memory"] == reqMem(len(tasksToAllocate)) && requestedShareQuantities["GPU"] == requiredQuota.GPU
 //@ end
